@@ -192,6 +192,16 @@ func (v *VerifSyncNode) SnapshotFinish(ps *VerifPendingSnapshot) (raftpb.Snapsho
 	return s, nil
 }
 
+// VerifSyncerSwitchSend does what KVNode.switchForLearnerLeader does when the placement driver tells a log-syncer
+// learner that it is (send = true) or is not (send = false) the learner that forwards the log.
+func VerifSyncerSwitchSend(sm StateMachine, send bool) bool {
+	l, ok := sm.(*logSyncerSM)
+	if ok {
+		l.switchIgnoreSend(send)
+	}
+	return ok
+}
+
 // RestoreAtStart does what startRaft does with the newest snapshot of an existing WAL
 // (nil: no snapshot, the data is cleaned) before the WAL tail is replayed.
 func (v *VerifSyncNode) RestoreAtStart(s *raftpb.Snapshot) error {
